@@ -151,11 +151,11 @@ def _explain(c, got, want, w, tree):
 
 
 N = {"quick": 1200, "thorough": 12000}
-NSHARDS = 6
+NSHARDS = {"quick": 6, "thorough": 16}
 
 
 def shards(tier, seed):
-    return [{"k": k, "n": N[tier] // NSHARDS, "seed": seed} for k in range(NSHARDS)]
+    return [{"k": k, "n": N[tier] // NSHARDS[tier], "seed": seed} for k in range(NSHARDS[tier])]
 
 
 def run_shard(shard, col):
